@@ -627,6 +627,211 @@ Proof.
   apply iter_done_ok in C. destruct C as (_ & _ & _ & <-). eapply top_tape_prefix; eauto.
 Qed.
 
+(* ------------------------------------------------------------------ failure is preserved by chopping *)
+(* needed for the converse simulation (a step on the chopped input is a step on the whole input) *)
+Definition nloc {A} (X : bytes -> outcome A) : Prop :=
+  forall d r, r <= length d -> is_ok (X d) = false -> is_ok (X (chop r d)) = false.
+
+Lemma nloc_const : forall {A} (o : outcome A), nloc (fun _ => o).
+Proof. intros A o d r _ H. exact H. Qed.
+
+Lemma nloc_ext : forall {A} (X Y : bytes -> outcome A), (forall d, X d = Y d) -> nloc X -> nloc Y.
+Proof. intros A X Y E H d r Hr HY. rewrite <- E in *. auto. Qed.
+
+Lemma nloc_gs : forall {A} n (f : bytes -> A),
+  nloc (fun d => match get_split n d with Some (h, r) => Ok (f h, r) | None => Err E_LexEof end).
+Proof.
+  intros A n f d r Hr H. unfold get_split in *. rewrite chop_length.
+  destruct (Nat.leb n (length d)) eqn:E; [discriminate|]. apply Nat.leb_gt in E.
+  replace (Nat.leb n (length d - r)) with false; [reflexivity|]. symmetry. apply Nat.leb_gt. lia.
+Qed.
+
+Lemma nloc_gs_pair : forall n, nloc (fun d => match get_split n d with Some p => Ok p | None => Err E_LexEof end).
+Proof. intro n. eapply nloc_ext; [|apply (nloc_gs n (fun h => h))]. intro d. cbv beta. destruct (get_split n d) as [[h r]|]; reflexivity. Qed.
+
+Lemma nloc_bind : forall {A B} (X : bytes -> outcome (A * bytes)) (G : A * bytes -> outcome B),
+  loc X -> nloc X -> (forall a, nloc (fun d => G (a, d))) -> nloc (fun d => obind (X d) G).
+Proof.
+  intros A B X G HX HN HG d r Hr H. cbv beta in *. destruct (X d) as [[a d1]| | | |] eqn:E;
+    try (assert (Hn : is_ok (X (chop r d)) = false) by (apply HN; [auto|rewrite E; reflexivity]);
+         destruct (X (chop r d)); try discriminate; reflexivity).
+  cbn [obind] in H. destruct (HX _ _ _ E) as [L1 C1]. destruct (C1 r Hr) as [Ca Cb].
+  destruct (le_lt_dec r (length d1)) as [Hle|Hlt].
+  - rewrite (Ca Hle). cbn [obind]. apply (HG a d1 r Hle H).
+  - rewrite (Cb Hlt). reflexivity.
+Qed.
+
+Lemma nloc_map : forall {A B} (f : A -> B) (X : bytes -> outcome (A * bytes)),
+  loc X -> nloc X -> nloc (fun d => omap (fun p => (f (fst p), snd p)) (X d)).
+Proof. intros A B f X HX HN. unfold omap. apply nloc_bind; auto. intros a d r _ H. discriminate. Qed.
+
+Lemma nloc_read_id : nloc read_id. Proof. exact (nloc_gs 2 (le_word 2)). Qed.
+Lemma nloc_read_u32 : nloc read_u32. Proof. exact (nloc_gs 4 (le_word 4)). Qed.
+
+Lemma nloc_read_string : nloc read_string.
+Proof.
+  eapply nloc_ext; [|apply (nloc_bind (fun d => match get_split 2 d with Some p => Ok p | None => Err E_LexEof end)
+                             (fun p => match get_split (N.to_nat (le_word 2 (fst p))) (snd p) with Some q => Ok q | None => Err E_LexEof end))].
+  - intro d. unfold read_string. destruct (get_split 2 d) as [[h r]|]; [|reflexivity]. cbn [obind fst snd].
+    unfold get_split. destruct (Nat.leb (N.to_nat (le_word 2 h)) (length r)); reflexivity.
+  - apply loc_gs_pair.
+  - apply nloc_gs_pair.
+  - intro a. cbn [fst snd]. apply nloc_gs_pair.
+Qed.
+
+Lemma nloc_read_bool : nloc read_bool.
+Proof.
+  eapply nloc_ext; [|apply (nloc_gs 1 (fun h => match h with b :: _ => negb (N.eqb b 0) | [] => true end))].
+  intros [|b r]; reflexivity.
+Qed.
+
+Lemma nloc_read_rgb : nloc read_rgb.
+Proof.
+  unfold read_rgb.
+  repeat (apply nloc_bind; [first [apply loc_read_id | apply loc_read_u32]|first [apply nloc_read_id | apply nloc_read_u32]|intro; cbv beta iota]).
+  repeat match goal with |- nloc (fun _ => if ?c then _ else _) => destruct c end; try apply nloc_const.
+  - intros d r _ H. discriminate.
+  - repeat (apply nloc_bind; [first [apply loc_read_id | apply loc_read_u32]|first [apply nloc_read_id | apply nloc_read_u32]|intro; cbv beta iota]).
+    repeat match goal with |- nloc (fun _ => if ?c then _ else _) => destruct c end; try apply nloc_const.
+    intros d r _ H. discriminate.
+Qed.
+
+Lemma nloc_read_scalar : forall k, nloc (read_scalar k).
+Proof.
+  destruct k; unfold read_scalar; apply nloc_map;
+    first [apply loc_read_u32 | apply loc_read_u64 | apply loc_read_i32 | apply loc_read_bool | apply loc_read_string
+          | apply loc_read_f32 | apply loc_read_f64 | apply loc_read_rgb | apply loc_read_i64
+          | exact (nloc_gs 4 (le_word 4)) | exact (nloc_gs 8 (le_word 8))
+          | exact (nloc_gs 4 (fun h => to_signed 32 (le_word 4 h))) | exact (nloc_gs 8 (fun h => to_signed 64 (le_word 8 h)))
+          | apply nloc_read_bool | apply nloc_read_string | exact (nloc_gs_pair 4) | exact (nloc_gs_pair 8) | apply nloc_read_rgb].
+Qed.
+
+Lemma nloc_ret : forall ps par t, nloc (fun d => Ok (mkst d ps par t)).
+Proof. intros ps par t d r _ H. discriminate. Qed.
+
+Lemma nloc_scalar_arm : forall k ps par t, nloc (fun d => scalar_arm k d ps par t).
+Proof.
+  intros. unfold scalar_arm. apply nloc_bind; [apply loc_read_scalar|apply nloc_read_scalar|]. intro a. cbv beta iota.
+  rewrite next_state_ok. cbn [obind]. apply nloc_ret.
+Qed.
+
+Lemma nloc_token_arm : forall ps par t id,
+  nloc (fun d => do ps' <- next_state ps; Ok (mkst d ps' par (push t (TToken id)))).
+Proof. intros. rewrite next_state_ok. cbn [obind]. apply nloc_ret. Qed.
+
+Lemma nloc_slow : forall id ps par t, nloc (fun d => slow false d id ps par t).
+Proof.
+  intros id ps0 par t0. unfold slow.
+  destruct (match ps0 with ObjectToArray => do t' <- mixed_insert2 t0; Ok (ArrayValueMixed, t') | _ => Ok (ps0, t0) end)
+    as [[ps t]| | | |]; cbn [obind]; try apply nloc_const.
+  destruct (classify id); try apply nloc_scalar_arm; try apply nloc_token_arm.
+  - (* I32 *) eapply nloc_ext; [|apply (nloc_scalar_arm KI32 ps par t)].
+    intro d. cbv beta. destruct (scalar_arm KI32 d ps par t); reflexivity.
+  - (* Open *) destruct (negb (is_key ps)); [apply nloc_ret|]. destruct t; [apply nloc_const|].
+    apply nloc_bind; [apply loc_read_id|apply nloc_read_id|]. intro a. cbv beta iota.
+    destruct (N.eqb a L_CLOSE); [apply nloc_ret|apply nloc_const].
+  - (* Close *)
+    destruct (match ps with KeyValueSeparator => mixed_insert1 t | ObjectValue => Err E_Syntax | _ => Ok t end)
+      as [t1| | | |]; cbn [obind]; try apply nloc_const.
+    destruct (push_end par t1) as [[r t']| | | |]; cbn [obind]; try apply nloc_const. apply nloc_ret.
+  - (* Equal *)
+    destruct ps; try apply nloc_const; try apply nloc_ret.
+    + destruct (pop t) as [[t1 last]|]; [|apply nloc_const].
+      destruct (is_array_or_end last); [apply nloc_const|].
+      destruct (only_empties par t1); [|apply nloc_ret].
+      destruct (set_parent_to_object par t1); cbn [obind]; try apply nloc_const. apply nloc_ret.
+    + destruct (set_parent_to_object par t); cbn [obind]; try apply nloc_const. apply nloc_ret.
+  - (* Rgb *)
+    destruct ps; try apply nloc_token_arm.
+    apply nloc_bind; [apply loc_read_scalar|apply nloc_read_scalar|]. intro a. cbv beta iota. apply nloc_ret.
+Qed.
+
+(* a stopped iteration stays stopped on the chopped input *)
+Lemma iter_done_chop : forall s r x, r <= length (s_data s) -> iter false false s = Done x ->
+  exists y, iter false false (chopS r s) = Done y.
+Proof.
+  intros s r x Hr H. destruct (get_split 2 (s_data s)) as [[h d]|] eqn:Eg.
+  - rewrite (iter_ref_unfold _ _ _ Eg) in H. pose proof (get_split_len _ _ _ _ Eg) as [Ld _].
+    destruct (get_split_chop _ _ _ _ _ Eg Hr) as [G1 G2].
+    destruct (le_lt_dec r (length d)) as [Hle|Hlt].
+    + rewrite (iter_ref_unfold (chopS r s) h (chop r d)) by (cbn [chopS s_data]; auto).
+      cbn [chopS s_ps s_par s_tape].
+      assert (Hn : is_ok (slow false d (le_word 2 h) (s_ps s) (s_par s) (s_tape s)) = false)
+        by (destruct (slow false d (le_word 2 h) (s_ps s) (s_par s) (s_tape s)); [discriminate|reflexivity..]).
+      apply (nloc_slow _ _ _ _ d r Hle) in Hn.
+      destruct (slow false (chop r d) (le_word 2 h) (s_ps s) (s_par s) (s_tape s)); try discriminate; cbn [stop]; eauto.
+    + unfold iter. cbn [chopS s_data]. rewrite (G2 Hlt). eauto.
+  - unfold iter. cbn [chopS s_data]. unfold get_split in *. rewrite chop_length.
+    destruct (Nat.leb 2 (length (s_data s))) eqn:E; [discriminate|]. apply Nat.leb_gt in E.
+    replace (Nat.leb 2 (length (s_data s) - r)) with false; [eauto|]. symmetry. apply Nat.leb_gt. lia.
+Qed.
+
+(* the converse simulation: a step of the reference machine on the chopped input is the chopped
+   image of a step on the whole input *)
+Lemma iter_unchop : forall s r sc, r <= length (s_data s) -> iter false false (chopS r s) = Continue sc ->
+  exists s', iter false false s = Continue s' /\ sc = chopS r s' /\ r <= length (s_data s').
+Proof.
+  intros s r sc Hr H. destruct (iter false false s) as [s'|x] eqn:E.
+  - destruct (iter_loc s s' r E Hr) as (L & C1 & C2 & C3).
+    destruct (le_lt_dec r (length (s_data s'))) as [Hle|Hlt].
+    + rewrite (C1 Hle) in H. inversion H. eauto.
+    + destruct (le_lt_dec (r + 2) (length (s_data s))) as [Hb|Hs].
+      * rewrite (C2 Hlt Hb) in H. discriminate.
+      * rewrite (C3 Hs) in H. discriminate.
+  - destruct (iter_done_chop s r x Hr E) as [y Hy]. congruence.
+Qed.
+
+Lemma read_id_unchop : forall d r id dc, r <= length d -> read_id (chop r d) = Ok (id, dc) ->
+  exists d', read_id d = Ok (id, d') /\ dc = chop r d' /\ r <= length d'.
+Proof.
+  intros d r id dc Hr H. destruct (read_id d) as [[id' d']| | | |] eqn:E.
+  - destruct (loc_read_id _ _ _ E) as [L C]. destruct (C r Hr) as [Ca Cb].
+    destruct (le_lt_dec r (length d')) as [Hle|Hlt].
+    + rewrite (Ca Hle) in H. inversion H; subst. eauto.
+    + rewrite (Cb Hlt) in H. discriminate.
+  - assert (Hn : is_ok (read_id (chop r d)) = false) by (apply nloc_read_id; [auto|rewrite E; reflexivity]).
+    rewrite H in Hn. discriminate.
+  - assert (Hn : is_ok (read_id (chop r d)) = false) by (apply nloc_read_id; [auto|rewrite E; reflexivity]).
+    rewrite H in Hn. discriminate.
+  - assert (Hn : is_ok (read_id (chop r d)) = false) by (apply nloc_read_id; [auto|rewrite E; reflexivity]).
+    rewrite H in Hn. discriminate.
+  - assert (Hn : is_ok (read_id (chop r d)) = false) by (apply nloc_read_id; [auto|rewrite E; reflexivity]).
+    rewrite H in Hn. discriminate.
+Qed.
+
+Lemma xstep_unchop : forall fx s r sc, r <= length (s_data s) -> xstep fx (chopS r s) sc ->
+  exists s', xstep fx s s' /\ sc = chopS r s' /\ r <= length (s_data s').
+Proof.
+  intros fx s r sc Hr [H|[Hfx (dc & Hid & Hps & ->)]].
+  - destruct (iter_unchop s r sc Hr H) as (s' & A & B & C). exists s'. split; [left; auto|auto].
+  - cbn [chopS s_data s_ps s_par s_tape] in *.
+    destruct (read_id_unchop _ _ _ _ Hr Hid) as (d' & A & -> & C).
+    exists (mkst d' (next_tbl (s_ps s)) (s_par s) (push (s_tape s) (TToken L_I64))).
+    split; [right; split; auto; exists d'; auto|]. split; [reflexivity|exact C].
+Qed.
+
+Lemma xstar_unchop : forall fx r a sc, xstar fx a sc -> forall s, a = chopS r s -> r <= length (s_data s) ->
+  exists s', xstar fx s s' /\ sc = chopS r s' /\ r <= length (s_data s').
+Proof.
+  induction 1; intros s0 E Hr; subst.
+  - exists s0. split; [constructor|auto].
+  - destruct (xstep_unchop _ _ _ _ Hr H) as (sa & A & -> & C).
+    destruct (IHxstar sa eq_refl C) as (sb & A' & B' & C'). exists sb. split; [econstructor; eauto|auto].
+Qed.
+
+(* the class of inputs on which the code as it is (fx = false) agrees with the reference is closed
+   under taking prefixes *)
+Theorem i64_never_chop : forall D r, r <= length D -> i64_never_in_key_position D -> i64_never_in_key_position (chop r D).
+Proof.
+  intros D r Hr HD sc Hx Hps rr Hid.
+  destruct (xstar_unchop false r _ _ Hx (init D) eq_refl Hr) as (s & A & -> & C).
+  cbn [chopS s_data s_ps] in *. destruct (read_id_unchop _ _ _ _ C Hid) as (d' & E & _ & _).
+  exact (HD s A Hps d' E).
+Qed.
+
+Theorem i64_never_firstn : forall D k, i64_never_in_key_position D -> i64_never_in_key_position (firstn k D).
+Proof. intros D k H. rewrite firstn_chop. apply i64_never_chop; [lia|exact H]. Qed.
+
 (* ------------------------------------------------------------------ prefixes; transfer to any parser with the same observations *)
 (* number of bytes of D the whole run has consumed when it stands in s *)
 Definition pos (D : bytes) (s : st) : nat := length D - length (s_data s).
